@@ -86,8 +86,14 @@ pub fn gen_event(rng: &mut Rng, p: &Pools, eng: &Eng, kind: Option<u16>) -> SemE
             1 => tags.push(vec![rng.pick(&p.letters).to_string()]),
             2 => {
                 // names outside NIP-01's single letters: several letters, one byte that is not a letter, empty
-                let name = *rng.pick(&["client", "1", "-", "#", "_", "tt", "", "1", "-"]);
-                let v = if name == "client" { "pvmon".to_string() } else { rng.pick(&p.tvals).clone() };
+                // and NIP-40 expiration times in the past / in the future / unparsable (the store does not act on
+                // them: such events are stored, found, reopened and rebuilt like any other)
+                let name = *rng.pick(&["client", "1", "-", "#", "_", "tt", "", "1", "-", "expiration", "expiration"]);
+                let v = match name {
+                    "client" => "pvmon".to_string(),
+                    "expiration" => rng.pick(&["1", "1712693529", "99712693529", "18446744073709551615", "soon", ""]).to_string(),
+                    _ => rng.pick(&p.tvals).clone(),
+                };
                 tags.push(vec![name.to_string(), v]);
             }
             3 => {
